@@ -40,7 +40,7 @@ Definition c_strtoull (base : nat) (s : list N) : Z * nat * bool :=
 Inductive want := WComplex | WFloat | WUnsigned | WSigned.
 
 (* Variants of the code, one flag per repair that _GD_TokToNum has received.
-   cfg_current (all true) = src/parse.c as it is (frozen tree 6bdc56b);
+   cfg_current (all true) = src/parse.c as it is (frozen tree c107348);
    cfg_old (all false) = the code before the repairs, kept as history for the
    regression lemmas.  The check probes which variant the library under test is.
      c_uflow  strtod ERANGE with |result| < 1 is accepted (C07-3, subsumed by c_oflow)
